@@ -19,6 +19,10 @@ CONSTS.setdefault('C15', []).append('CodeAgreeRtt')
 # raw.rs (header, RawMessage, attribute iterator, get_input_text) = Wire.hdr_valid / Tlv.dec_tlvs / InputText.input_text
 for _p in ('C03', 'C04', 'C09', 'C10', 'C18'):
     CONSTS.setdefault(_p, []).append('CodeAgreeRaw')
+# lib.rs StunPacketDecoder::new / decode (with raw.rs MessageHeader::try_from) = Reasm.feed / ReasmRs.feed_rs / new_rs / run_log
+CONSTS.setdefault('C16', []).append('CodeAgreeRaw')
+for _p in ('C03', 'C16'):
+    CONSTS.setdefault(_p, []).append('CodeAgreeReasm')
 
 SUITES = {
     'attrval': dict(bin='attrval', nontrivial=r'^C [DE] '),
